@@ -23,3 +23,11 @@ Print Assumptions C17_int_wrapped_between.
 Print Assumptions C17_int_wrap.
 Print Assumptions C17_repaired.
 Print Assumptions C17_float_wrapped.
+
+(** the hypotheses of the integer theorems are satisfiable (i8, overflow checks on), at the inputs that used to overflow *)
+Require Import ZArith.
+Local Open Scope Z_scope.
+Example C17_int_example :
+  let s := {| signed := true; width := 8; dbg := true |} in
+  wf s /\ 2 <= imax s /\ in_range s (-100) /\ in_range s 100 /\ in_range s 120 /\ 0 <= 100 < 120.
+Proof. cbv [wf in_range imin imax signed width]. repeat split; Lia.lia. Qed.
